@@ -59,6 +59,13 @@ def allowed : VClass → String → Bool
   | .rawInput, _ => false
   | .unknown, _ => false
 
+/-- the sites that stand inside a `{% filter indent(4) %}` block — those of the included Config
+templates (`{{ field_name }} = {{ value }}`).  Only there does it matter whether a value contains one
+of the line boundaries of `str.splitlines` other than `\n` (the filter re-indents after each of them);
+everywhere else only `\n` ends a line of the rendered text.  The check of a template fails
+(`absSlot1`) when any other site occurs inside a filter block. -/
+def filterBlockSites : List String := ["field_name", "value"]
+
 /-- loop headers that may feed a `{{ line }}` comment site: the lines of a description, taken with
 `str.splitlines()` (which removes every line terminator) -/
 def reviewedLineLoops : List String :=
